@@ -247,7 +247,8 @@ def main():
     args = parse_args("C17"); ck = Check("C17", args.tier); thorough = args.tier == "thorough"
     symcore.Explorer.incremental = True
     import ImageD11.columnfile as CF
-    depth = 3 if thorough else 2
+    depth = 2       # sequences of 2 operations + a third (probing) one; 17^4 sequences (depth 3 + probe) ran beyond an hour and are outside the bound
+    # quick: the third step only from the dict 2x2 and file-loaded states; thorough: from all four start states
     O = ops(2)
     ck.encoded(*["ImageD11/columnfile.py:columnfile.%s" % n for n in ("addcolumn", "setcolumn", "__setitem__", "__getitem__", "__setattr__", "getcolumn", "filter", "removerows", "sortby", "reorder", "copy", "copyrows",
                                                                       "get_bigarray", "set_bigarray", "set_attributes", "chkarray", "readfile")] + ["ImageD11/columnfile.py:colfile_from_dict", "ImageD11/columnfile.py:newcolumnfile"])
